@@ -262,7 +262,7 @@ impl Property for C10 {
     fn cases(&self, tier: Tier) -> usize {
         match tier {
             Tier::Quick => 200_000,
-            Tier::Thorough => 600_000,
+            Tier::Thorough => 3_000_000,
         }
     }
     fn strategy(&self, _tier: Tier) -> BoxedStrategy<C10Case> {
@@ -303,7 +303,18 @@ pub fn c10_from_raw(base: ProblemCase, raw_ops: Vec<(u16, Vec<u16>, u16)>, pl: u
                         6 => {
                             let mut a = alpha_tame(&base.spec, &us, 0);
                             let k = pick(aux, a.len());
-                            a[k] = extremes[pick(us[7], extremes.len())];
+                            // besides the fixed extremes: values that put the largest basis value just
+                            // below the overflow threshold of the scalar type (finite matrices with
+                            // entries of 1e304..1e308, f32: 1e38) — where a decomposition may break down
+                            let mut cands: Vec<f64> = extremes.to_vec();
+                            let xm = base.x.iter().fold(0.0f64, |m, v| m.max(v.abs())).max(1e-300);
+                            let lim = if base.f32 { [87.0, 88.6] } else { [700.0, 709.7] };
+                            match base.spec.roles()[k] {
+                                crate::spec::Role::Tau => cands.extend([-xm / lim[0], -xm / lim[1]]),
+                                crate::spec::Role::Rate => cands.extend([-lim[0] / xm, -lim[1] / xm]),
+                                _ => {}
+                            }
+                            a[k] = cands[pick(us[7], cands.len())];
                             earlier.push(a.clone());
                             Op::Set(a)
                         }
